@@ -35,6 +35,13 @@ type Slice struct {
 	V []Value // nil => nil slice
 }
 
+// MaybeNil is a byte slice read from the store whose presence is symbolic:
+// it is nil iff Nil holds, otherwise it is S.
+type MaybeNil struct {
+	S   Slice
+	Nil *Term
+}
+
 type SymStr struct{ Desc string }
 
 type Iface struct {
@@ -284,6 +291,10 @@ func deepCopy(v Value, seen map[*Value]*Value) Value {
 		return nm
 	case Iface:
 		return Iface{x.T, deepCopy(x.V, seen)}
+	case MaybeNil:
+		return MaybeNil{deepCopy(x.S, seen).(Slice), x.Nil}
+	case Blob:
+		return Blob{V: deepCopy(x.V, seen), Typ: x.Typ}
 	}
 	return v
 }
